@@ -1057,12 +1057,12 @@ class Config:  # pylint: disable=too-many-instance-attributes
         if isinstance(field, Field):
             try:
                 value = field.validate(self, value)
+                field.__setval__(self, value)
             except ValidationError:
                 raise
             except Exception as err:
                 raise ValidationError(self, field, err) from err
             else:
-                field.__setval__(self, value)
                 self._default_value_keys.discard(key)
                 return value
 
